@@ -70,9 +70,17 @@ def p_ranges(t):
         if s <= prev_end:
             return 'range (%d, %d) of field %r overlaps or precedes the previous range ending at %d' % (s, e, name, prev_end)
         prev_end = e
-    # first and last line holding content: the line before start / after end, if it belongs to no other
-    # live field, holds no word of this field's value that is missing from the range ... (tightness is the
-    # non-blank ends + the word clause above)
+    # end is the LAST line holding the field's content: the line after it, when it belongs to no other reported
+    # field, is not an indented non-blank line (that would be one more continuation line of this field - a " ."
+    # marker line included)
+    covered = set()
+    for _, _, (s, e) in live:
+        covered.update(range(s, e + 1))
+    for name, v, (s, e) in live:
+        if e < len(src) and (e + 1) not in covered:
+            nxt = src[e]
+            if nxt[:1] in (' ', '\t') and nxt.strip():
+                return 'range (%d, %d) of field %r ends before line %d %r, which continues the field' % (s, e, name, e + 1, nxt)
     return None
 
 
